@@ -778,6 +778,9 @@ func (f *Frame) blockEntry(b *ssa.BasicBlock) *State {
 		}
 	}
 	hst.guard = and(append([]Sx{hst.guard}, facts...)...)
+	// global invariants are loop invariants of every loop: assumed for the havocked heap here,
+	// re-proved at each back edge whose state differs (#loopK.ginv.<name>.keep)
+	tr.assumeGlobalInvs(hst)
 	hs.st = hst.clone()
 	f.headerSt[b.Index] = hs
 	// 3. assume invariants
@@ -942,6 +945,21 @@ func (f *Frame) takeEdge(b *ssa.BasicBlock, succ *ssa.BasicBlock, st *State) {
 					c.addObl(&Obligation{Name: fmt.Sprintf("%s#loop%d.auto.keep", tr.oblPrefix, li.ord), Kind: "inv.keep",
 						Guard: st.guard, Goal: f.autoRangeInv(phi, v.t), Pos: "-1 <= rangeindex && (rangeindex == -1 || rangeindex < len)", Func: tr.oblPrefix})
 				}
+			}
+		}
+		if li != nil && tr.safety && hs != nil && hs.st != nil {
+			for _, gi := range tr.contracts.GInvs {
+				if gi.Clause.Expr == nil {
+					continue
+				}
+				e1 := &Env{tr: tr, vars: map[string]Val{}, st: st, old: st, info: gi.Clause.Info}
+				e0 := &Env{tr: tr, vars: map[string]Val{}, st: hs.st, old: hs.st, info: gi.Clause.Info}
+				g1, g0 := e1.expr(gi.Clause.Expr).t, e0.expr(gi.Clause.Expr).t
+				if g1 == g0 {
+					continue // the loop body did not write anything the invariant reads
+				}
+				c.addObl(&Obligation{Name: fmt.Sprintf("%s#loop%d.ginv.%s.keep", tr.oblPrefix, li.ord, gi.Name), Kind: "inv.keep",
+					Guard: st.guard, Goal: g1, Pos: gi.Clause.Text, Func: tr.oblPrefix})
 			}
 		}
 		var lspec *LoopSpec
